@@ -442,12 +442,17 @@ def default_id_rebuild(col):
     once IDs are mapped back to names."""
     import re
 
-    for sp0 in F.rule_sensitive_specs():
-        if not sp0["label"].startswith("pairs"):
-            continue
-        for one_worker in (False, True):
+    tied = []
+    for frule in ("SSP", "VC", "HSV"):
+        # two facilities tied on every sort key (same skills; same cost for VC) but distinguishable in the result, one worker
+        cost1 = 1.0 if frule == "VC" else 3.0
+        tied.append({"tasks": [{"name": "T0", "work": 4.0, "nf": True, "frule": frule}], "links": [], "components": [{"name": "C0", "tasks": [0]}],
+                     "workplaces": [{"name": "WP0", "cap": 1.0, "targets": [0], "facilities": [{"name": "F0", "skills": {"T0": 1.0}, "cost": 1.0}, {"name": "F1", "skills": {"T0": 1.0}, "cost": cost1}]}],
+                     "teams": [{"name": "TM0", "targets": [0], "workers": [{"name": "W0", "skills": {"T0": 1.0}, "fskills": {"F0": 1.0, "F1": 1.0}, "cost": 1.0}]}], "label": "tied:" + frule})
+    for sp0 in [sp for sp in F.rule_sensitive_specs() if sp["label"].startswith("pairs")] + tied:
+        for one_worker in ((False, True) if sp0["label"].startswith("pairs") else (False,)):
             dumps = []
-            for rep in range(3):
+            for rep in range(6):
                 m = S.build(sp0, plain=True)
                 if one_worker:
                     m.teams[0].worker_list[:] = [w for w in m.teams[0].worker_list if w.name != "W1"]
@@ -466,12 +471,12 @@ def default_id_rebuild(col):
                 for k, v in ren.items():
                     txt = txt.replace(k, v)
                 dumps.append(json.dumps(json.loads(txt), sort_keys=True))  # keys were sorted by the generated IDs: sort again by name
-            col.evaluations += 3
+            col.evaluations += 6
             col.checks["c09.default-ids"] += 1
             col.transitions.add(hash(("defaultid", sp0["label"], one_worker)))
             if len(set(dumps)) != 1:
                 col.violation({"property": "C09", "sig": "C09:result-depends-on-generated-default-IDs", "kind": "defaultid", "address_dependent": True, "spec": sp0,
-                               "detail": {"distinct_results_in_3_builds": len(set(dumps)), "first_difference": first_diff(dumps[0], [d for d in dumps if d != dumps[0]][0])}})
+                               "detail": {"distinct_results_in_6_builds": len(set(dumps)), "first_difference": first_diff(dumps[0], [d for d in dumps if d != dumps[0]][0])}})
 
 
 _SUB = r"""
